@@ -8,43 +8,83 @@
 (*   Resolve  while the source end of t waits (registered, not removed, period not lapsed) a     *)
 (*            lookup of t from any node is found, names the registering node, returns exactly    *)
 (*            the registered field values, and that node's address can be obtained               *)
-(*   Gone     otherwise (never registered, bridge ended, or waiting period lapsed) a lookup      *)
-(*            does not resolve                                                                   *)
+(*   Gone     a lookup does not resolve when the id was never registered, when the tunnel has     *)
+(*            ended and its end is fully processed (the bridge lifecycle's removal has run and    *)
+(*            no write of the record is still in flight), or when the waiting period of a         *)
+(*            written record has lapsed.  While an end is being processed, or a bridge exists     *)
+(*            whose record is not written yet, nothing is demanded.                               *)
+(*                                                                                              *)
+(* Registration and removal are logged either as single events (Register / Remove: RoutingTable  *)
+(* API level) or as the call-site steps the driver observed: Create (bridge in the map, the       *)
+(* record's Set issued), Set (the Set landed), TunnelEnd (bridge closed), Removed (the           *)
+(* lifecycle's RemoveWaitingTunnel ran).                                                         *)
 (*                                                                                              *)
 (* Timing: the driver discards behaviours whose register..lookup segments overran the safety      *)
 (* margin inside the waiting period; a tick is a sleep well beyond the period.                   *)
 (* detail:  Resolve/<backend>:<what>:<value class>   what = notfound | expired | error |          *)
 (*          wrongnode | fields | addr                                                            *)
-(*          Gone/<backend>:<why>                     why  = never | removed | lapsed              *)
+(*          Gone/<backend>:<why>                     why  = never | removed | lapsed |            *)
+(*                                                          ended:late-set (the record was       *)
+(*                                                          written after the removal had run)   *)
 EXTENDS VLib
 
 Tunnels == {"t1", "t2", "t3"}
-VARIABLES be, br, why
-vars == <<l, viol, be, br, why>>
+VARIABLES be, br, why,
+          fl,   \* tunnel -> the record's Set is in flight
+          rp    \* tunnel -> the tunnel ended, the lifecycle's removal has not run yet
+vars == <<l, viol, be, br, why, fl, rp>>
 
 NoBridge == [on |-> FALSE, node |-> "-", left |-> 0, cls |-> "-"]
-Init == l = 1 /\ viol = {} /\ be = "?" /\ br = [t \in Tunnels |-> NoBridge] /\ why = [t \in Tunnels |-> "never"]
+None == [t \in Tunnels |-> FALSE]
+Init == /\ l = 1 /\ viol = {} /\ be = "?" /\ br = [t \in Tunnels |-> NoBridge] /\ why = [t \in Tunnels |-> "never"]
+        /\ fl = None /\ rp = None
 Step == l' = l + 1
 
-TrCfg == Is("Cfg") /\ be' = Ev.be /\ Step /\ UNCHANGED <<viol, br, why>>
+TrCfg == Is("Cfg") /\ be' = Ev.be /\ Step /\ UNCHANGED <<viol, br, why, fl, rp>>
 
-TrAnnounce == Is("Announce") /\ Step /\ UNCHANGED <<viol, be, br, why>>
+TrAnnounce == Is("Announce") /\ Step /\ UNCHANGED <<viol, be, br, why, fl, rp>>
 
 TrRegister == /\ Is("Register") /\ Ev.t \in Tunnels
               /\ br' = [br EXCEPT ![Ev.t] = [on |-> TRUE, node |-> Ev.n, left |-> Ev.period, cls |-> Ev.cls]]
+              /\ fl' = [fl EXCEPT ![Ev.t] = FALSE] /\ rp' = [rp EXCEPT ![Ev.t] = FALSE]
               /\ Step /\ UNCHANGED <<viol, be, why>>
+
+\* ---- the call-site steps ----
+TrCreate == /\ Is("Create") /\ Ev.t \in Tunnels
+            /\ br' = [br EXCEPT ![Ev.t] = [on |-> TRUE, node |-> Ev.n, left |-> Ev.period, cls |-> Ev.cls]]   \* the period runs from the issue of the Set
+            /\ fl' = [fl EXCEPT ![Ev.t] = TRUE]
+            /\ Step /\ UNCHANGED <<viol, be, why, rp>>
+
+TrSet == /\ Is("Set") /\ Ev.t \in Tunnels
+         /\ fl' = [fl EXCEPT ![Ev.t] = FALSE]
+         /\ br' = br
+         /\ why' = IF ~br[Ev.t].on /\ ~rp[Ev.t] THEN [why EXCEPT ![Ev.t] = "ended:late-set"] ELSE why
+         /\ Step /\ UNCHANGED <<viol, be, rp>>
+
+TrTunnelEnd == /\ Is("TunnelEnd") /\ Ev.t \in Tunnels
+               /\ br' = [br EXCEPT ![Ev.t] = NoBridge]
+               /\ rp' = [rp EXCEPT ![Ev.t] = TRUE]
+               /\ Step /\ UNCHANGED <<viol, be, why, fl>>
+
+TrRemoved == /\ Is("Removed") /\ Ev.t \in Tunnels
+             /\ rp' = [rp EXCEPT ![Ev.t] = FALSE]
+             /\ why' = [why EXCEPT ![Ev.t] = "removed"]
+             /\ Step /\ UNCHANGED <<viol, be, br, fl>>
 
 TrRemove == /\ Is("Remove") /\ Ev.t \in Tunnels
             /\ br' = [br EXCEPT ![Ev.t] = NoBridge]
             /\ why' = [why EXCEPT ![Ev.t] = "removed"]
+            /\ fl' = [fl EXCEPT ![Ev.t] = FALSE] /\ rp' = [rp EXCEPT ![Ev.t] = FALSE]
             /\ Step /\ UNCHANGED <<viol, be>>
 
 TrTick == /\ Is("Tick")
           /\ br' = [t \in Tunnels |-> IF br[t].on /\ br[t].left > 0 THEN [br[t] EXCEPT !.left = @ - 1] ELSE br[t]]
           /\ why' = [t \in Tunnels |-> IF br[t].on /\ br[t].left = 1 THEN "lapsed" ELSE why[t]]
-          /\ Step /\ UNCHANGED <<viol, be>>
+          /\ Step /\ UNCHANGED <<viol, be, fl, rp>>
 
-Waiting(t) == br[t].on /\ br[t].left > 0
+Waiting(t) == br[t].on /\ ~fl[t] /\ br[t].left > 0
+Settled(t) == ~br[t].on /\ ~rp[t] /\ ~fl[t]
+Lapsed(t)  == br[t].on /\ ~fl[t] /\ br[t].left = 0
 
 Bad(e) ==
   LET t == e.t IN
@@ -54,15 +94,16 @@ Bad(e) ==
                    ELSE IF ~e.fieldsEqual THEN "fields"
                    ELSE IF ~e.addrOk THEN "addr" ELSE "ok"
        IN IF what = "ok" THEN {} ELSE {V("Resolve", be \o ":" \o what \o ":" \o br[t].cls)}
-  ELSE IF e.r = "found" THEN {V("Gone", be \o ":" \o why[t])} ELSE {}
+  ELSE IF (Settled(t) \/ Lapsed(t)) /\ e.r = "found" THEN {V("Gone", be \o ":" \o why[t])} ELSE {}
 
 TrLookup == /\ Is("Lookup") /\ Ev.t \in Tunnels
             /\ viol' = viol \cup Bad(Ev)
-            /\ Step /\ UNCHANGED <<be, br, why>>
+            /\ Step /\ UNCHANGED <<be, br, why, fl, rp>>
 
 TrEnd == /\ Is("End") /\ EmitVerdict
          /\ l' = l + 1 /\ viol' = {} /\ be' = "?" /\ br' = [t \in Tunnels |-> NoBridge] /\ why' = [t \in Tunnels |-> "never"]
+         /\ fl' = None /\ rp' = None
 
-Next == TrCfg \/ TrAnnounce \/ TrRegister \/ TrRemove \/ TrTick \/ TrLookup \/ TrEnd
+Next == TrCfg \/ TrAnnounce \/ TrRegister \/ TrCreate \/ TrSet \/ TrTunnelEnd \/ TrRemoved \/ TrRemove \/ TrTick \/ TrLookup \/ TrEnd
 Spec == Init /\ [][Next]_vars
 =============================================================================
